@@ -1,4 +1,7 @@
 # C01 — an actor handles at most one message at a time
+import json
+import os
+
 import vlib
 
 MBOX_SOURCES = ["engine/vivid/mailbox/lock_free.go", "engine/vivid/mailbox/global_ordered_lock_free.go",
@@ -11,17 +14,65 @@ TRUSTED = [
     "dispatcher contract: Dispatch(f) runs f once, later, on some goroutine (goroutine and ants dispatchers)",
     "Go runtime; the controlled scheduler explores interleavings of atomic operations, not compiler/CPU reorderings below sync/atomic",
 ]
+# the actor-level sub-check "turns" (only C01 uses it; C02 imports TRUSTED above for the mailbox tie)
+TURNS_TRUSTED = [
+    "actor level (sub-check turns, tie T4): the trace checker coq/C01/TurnsModel.v turns_ok is proved sound for every trace "
+    "(TurnsProofs.v); what is trusted is the recording: harness/cmd/c01turns brackets every handler, supervision decision, timer "
+    "callback and local function of its actors with Begin/End, the recorder is one atomic fetch-and-add per event (Go atomics "
+    "sequentially consistent), the event packer / Coq decoder TurnsRun.tdec (pinned by tdec_examples and by a corpus of traces with "
+    "known verdicts evaluated on every run), and that the scripts reach the entry points (distribution in the evidence); real "
+    "goroutines: interleavings are sampled by the Go scheduler, not enumerated — entry points that bypass the mailbox are caught "
+    "deterministically by the hold phases (an invocation kept open while the entry point is fired), racy ones only statistically",
+]
 MANIFEST = {
     "text": "Theorem C01_mutual_exclusion (Coq, invariant over every reachable state of an interleaving semantics with an unbounded "
             "pool of sender/suspender/resumer/runner threads): at most one thread is ever inside ProcessUserMessage/ProcessSystemMessage/"
             "ProcessAccident of a mailbox. The machine has one step per atomic statement of lock_free.go; on every run the current text of "
             "both mailbox files is instrumented (atomics and queue redirected to a controlled scheduler) and hundreds of random schedules "
-            "(thorough: + depth-first enumeration with preemption bound 2) are replayed step by step inside Coq against the machine.",
+            "(thorough: + depth-first enumeration with preemption bound 2) are replayed step by step inside Coq against the machine. "
+            "Actor level (sub-check turns): that every piece of user code of an actor — receive handler for user and lifecycle/system "
+            "messages, supervision decisions, timer callbacks (After/Repeated/ImmediateCron/DayMoment tasks), functions passed to "
+            "ExecLocalFunc (context and system, own reference and others) — runs as a turn of its mailbox is checked on the real "
+            "ActorSystem (real goroutines, LockFree and GlobalOrderedLockFree, default ants / goroutine / one-worker ants dispatchers): "
+            "thousands of random scripts (storms from several goroutines; one invocation kept open on a channel while every other entry "
+            "point is fired at the actor; failures with restart/resume/stop, terminate, re-creation) record Begin/End events through a "
+            "fetch-and-add recorder plus a plain per-actor variable; every trace is evaluated under vm_compute by the Coq checker turns_ok, "
+            "for which C01_turns_no_overlap (any two invocations of one actor at positions b1<e1, b2<e2 satisfy e1<b2 or e2<b1), "
+            "C01_turns_bracketed, C01_turns_reads_last_write / _first_reads_init (each invocation read exactly what its predecessor wrote), "
+            "C01_turns_closed_all_ended, C01_turns_complete / _exact (accepted = per-actor sequential histories, so correct behaviour is "
+            "never rejected) and C01_turns_rejects_seeded_behaviours are proved for every trace; thorough tier additionally under the race detector.",
     "note": "Trusted: Coq kernel+vm_compute; the machine is hand-written, its correspondence is checked per executed step but only on the "
             "schedules explored; atomics sequentially consistent; queue atomic FIFO; dispatcher contract; 'visible to the next invocation' "
-            "is the happens-before of the model (store Idle -> CAS -> spawn), hardware conformance assumed.",
-    "technique": "Coq proof (token-counting invariant over an unbounded-thread interleaving machine) + per-step schedule replay of the instrumented source in Coq",
+            "is the happens-before of the model (store Idle -> CAS -> spawn), hardware conformance assumed. Actor level: the checker is proved, "
+            "the recording is trusted (Begin/End brackets in the harness's actors, fetch-and-add recorder, packer/decoder pinned by a corpus); "
+            "interleavings of the real system are sampled, not enumerated: a bypass of the mailbox is caught deterministically when the script "
+            "holds an invocation open and fires that entry point (every script does, for randomly chosen entry points), a window of a few "
+            "instructions only statistically; StateChangeEventApply (persistence), which re-enters OnReceive from inside a handler by design, "
+            "is not exercised.",
+    "technique": "Coq proof (token-counting invariant over an unbounded-thread interleaving machine) + per-step schedule replay of the instrumented source in Coq "
+                 "+ proved trace checker (T4) run in Coq on Begin/End traces recorded on the real ActorSystem, Go monitors, race detector (thorough)",
 }
+
+TURNS_KINDS = ["C01:turns:"]
+
+
+def turns(ctx):
+    """Actor-level sub-check: every piece of user code of an actor runs as a turn of its mailbox (harness/cmd/c01turns)."""
+    ctx.trusted += TURNS_TRUSTED
+    b = vlib.go_build(ctx, "c01turns")
+    vlib.run_harness(ctx, b, "turns", kinds=TURNS_KINDS)
+    if ctx.tier == "thorough":
+        # the same scripts under the race detector: the actors' second plain variable is accessed outside the recorder's
+        # atomics, so a missing happens-before between two turns of one actor is a reported race
+        try:
+            rb = vlib.go_build(ctx, "c01turns", name="c01turns_race", race=True)
+        except vlib.CheckError as e:
+            ctx.notes.append("race-detector build of c01turns not available here: %s" % str(e)[-300:])
+            return
+        outdir = os.path.join(ctx.scratch, "out_turnsrace")
+        os.makedirs(outdir, exist_ok=True)
+        env = dict(os.environ, GORACE="halt_on_error=0 exitcode=0 log_path=%s" % os.path.join(outdir, "race"))
+        vlib.run_harness(ctx, rb, "turnsrace", args=["-sub", "turnsrace", "-n", "1500"], env=env, kinds=TURNS_KINDS)
 
 
 def check(ctx, prop_dir="C01", props="C01/Properties.v", kinds=("mailbox:overlap",), design="DESIGN.md §6 C01"):
@@ -33,13 +84,45 @@ def check(ctx, prop_dir="C01", props="C01/Properties.v", kinds=("mailbox:overlap
         vlib.coq_properties(ctx, props)
     b = vlib.t2_build(ctx, "mbox", "mailbox", MBOX_SOURCES, "mailbox")
     vlib.run_harness(ctx, b, "mbox", kinds=list(kinds))
+    turns(ctx)
     if ctx.tier == "thorough":
         vlib.coqchk(ctx, ["MV.%s.Properties" % prop_dir])
     return vlib.finish(ctx, "make -C coq && coqc %s (Print Assumptions); instrument + build current mailbox sources (t2_build); "
-                            "coqc <schedule-replay shards> (vm_compute)" % props, design, search=vlib.default_search)
+                            "coqc <schedule-replay shards> (vm_compute); go build harness/cmd/c01turns against the working tree, run, "
+                            "coqc <trace shards> (turns_ok under vm_compute)" % props, design, search=vlib.default_search)
+
+
+def replay_turns(ctx, path, d):
+    """Re-execute the script of a turns replay file on the current tree (the interleaving is the Go scheduler's, so the script
+    is run several times), and show where the Coq checker stops on the recorded trace."""
+    case = d.get("case") or {}
+    trace = case.get("trace") or []
+    if trace and vlib.coq_make(ctx, ["Lib", "C01"]):
+        v = os.path.join(ctx.scratch, "replay_trace.v")
+        open(v, "w").write(
+            "From Coq Require Import Uint63.\nFrom MV Require Import Lib.ListX C01.TurnsModel C01.TurnsRun.\n"
+            "Definition c := {| tcid := 0%%nat; tpacked := ([%s])%%uint63; tcomplete := %s; texpect := true |}.\n"
+            "Definition coq_checker_accepts_recorded_trace := Eval vm_compute in tverdict c.\nPrint coq_checker_accepts_recorded_trace.\n"
+            "Definition first_rejected_event := Eval vm_compute in tdiagnose c.\nPrint first_rejected_event.\n"
+            % ("; ".join(str(x) for x in trace), "true" if case.get("complete") else "false"))
+        rc, out, err, _ = vlib.sh(["coqc", "-Q", vlib.COQ, "MV", v], cwd=ctx.scratch, timeout=600)
+        print((out + err).strip())
+    b = vlib.go_build(ctx, "c01turns")
+    rc, out, err, _ = vlib.sh([b, "-replay", path], timeout=900)
+    print(out.strip())
+    if err.strip():
+        print(err.strip()[-3000:])
+    print("monitor verdict on the current tree: %s" % ("VIOLATION reproduced" if rc else "no violation"))
+    return rc
 
 
 def replay(ctx, path):
+    try:
+        d = json.load(open(path))
+    except Exception:
+        d = {}
+    if str(d.get("sub", "")).startswith("turns") or str(d.get("kind", "")).startswith("C01:turns:"):
+        return replay_turns(ctx, path, d)
     print("schedules are regenerated deterministically from VERIF_SEED; re-run `VERIF_SEED=<seed in file> bin/check %s`" % ctx.prop)
     print(open(path).read()[:3000])
     return 0
